@@ -71,6 +71,7 @@ type summary struct {
 	HostOrderCompilations int            `json:"host_order_compilations"`
 	WholeTable            int            `json:"whole_table_compilations"`
 	OtherDomain           int            `json:"compilations_under_PER_LINUX32"`
+	Jailed                bool           `json:"process_without_a_file_system"`
 	Accepted              int            `json:"accepted"`
 	Rejected              int            `json:"rejected"`
 	Events                int            `json:"events"`
@@ -682,6 +683,7 @@ func main() {
 	concs := flag.Int("concs", 3, "concretisations per case")
 	expand := flag.Int("expand", 3, "members run per event class (0 = all)")
 	replay := flag.String("replay", "", "replay one failure record")
+	jail := flag.String("jail", "", "change the root of the process to this (empty) directory before the first compilation: no /proc, no /sys, no /etc")
 	flag.Parse()
 	rng := rand.New(rand.NewSource(*seed))
 
@@ -703,6 +705,27 @@ func main() {
 	if err != nil {
 		fmt.Fprintln(os.Stderr, err)
 		os.Exit(2)
+	}
+	var sumOut *os.File
+	if *sumFile != "" {
+		if sumOut, err = os.Create(*sumFile); err != nil {
+			fmt.Fprintln(os.Stderr, err)
+			os.Exit(2)
+		}
+	}
+	if *jail != "" {
+		// What a policy compiles to is a function of the policy: not of what the process can read about the machine it runs on.
+		// All files are open; from here on the process sees an empty file system.
+		if err := syscall.Chroot(*jail); err != nil {
+			fmt.Fprintln(os.Stderr, "chroot:", err)
+			os.Exit(2)
+		}
+		os.Chdir("/")
+		if _, err := os.Stat("/proc/self"); err == nil {
+			fmt.Fprintln(os.Stderr, "the jail has a /proc")
+			os.Exit(2)
+		}
+		sum.Jailed = true
 	}
 	sc := bufio.NewScanner(f)
 	sc.Buffer(make([]byte, 1<<20), 1<<28)
@@ -819,8 +842,9 @@ func main() {
 		os.Exit(2)
 	}
 	out, _ := json.MarshalIndent(sum, "", " ")
-	if *sumFile != "" {
-		os.WriteFile(*sumFile, out, 0o644)
+	if sumOut != nil {
+		sumOut.Write(out)
+		sumOut.Close()
 	} else {
 		fmt.Println(string(out))
 	}
